@@ -471,6 +471,23 @@ def prepass(text, opaque=None, log=None):
     texts = [t.text for t in toks]
     edits = []
     for o in (opaque or []):
+        if "stmt_from" in o:
+            # a whole block statement: from the head tokens through the brace block they open
+            head = [t.text for t in code_tokens(o["stmt_from"])]
+            i = _find_seq(texts, head)
+            if i < 0:
+                raise ExtractError("O1: opaque statement %r not found" % o["stmt_from"])
+            if _find_seq(texts, head, i + 1) >= 0:
+                raise ExtractError("O1: opaque statement %r is ambiguous" % o["stmt_from"])
+            b = i + len(head) - 1
+            if texts[b] != "{":
+                raise ExtractError("O1: stmt_from must end with the opening brace")
+            e = match_close(toks, b)
+            orig = text[toks[i].start:toks[e].end]
+            edits.append((toks[i].start, toks[e].end, o["call"]))
+            if log is not None:
+                log.append({"rule": "O1", "expr": orig, "call": o["call"], "occurrences": 1, "statement": True})
+            continue
         pat = [t.text for t in code_tokens(o["expr"])]
         pos = 0
         hits = 0
